@@ -1,4 +1,450 @@
-import Crs.Passes
+/-
+  C02 — generated regex can be pasted between the quotes of a SecRule line.
+
+  Model: `Crs.Passes` (the six string-level passes of `complete`) and `Crs.Asm.finish` (flag prefix).
+  The theorems here hold for EVERY input text of the passes, not only for text the engine prints.
+-/
+import Crs.Assemble
+import CrsProofs.PassesBal
 namespace Crs.Props
-theorem C02_placeholder : True := trivial
+open Crs Crs.Passes Crs.Asm
+
+/-- printable ASCII: 0x20 … 0x7e (in particular no line feed: the text is a single line) -/
+def isPrintable (c : Char) : Bool := 32 ≤ c.toNat && c.toNat ≤ 126
+
+def AllPrintable (s : Bytes) : Prop := ∀ c ∈ s, isPrintable c = true
+
+private theorem hexDigit_printable (n : Nat) (h : n < 16) : isPrintable (hexDigit n) = true := by
+  have : ∀ k : Fin 16, isPrintable (hexDigit k.val) = true := by decide
+  exact this ⟨n, h⟩
+
+private theorem hexDigits_printable (f n : Nat) : AllPrintable (hexDigits f n) := by
+  induction f generalizing n with
+  | zero => simp [hexDigits, AllPrintable]
+  | succ f ih =>
+    unfold hexDigits
+    split
+    · rename_i h; intro c hc; simp only [List.mem_singleton] at hc; subst hc; exact hexDigit_printable n h
+    · intro c hc
+      simp only [List.mem_append, List.mem_singleton] at hc
+      rcases hc with hc | hc
+      · exact ih _ c hc
+      · subst hc; exact hexDigit_printable _ (Nat.mod_lt _ (by decide))
+
+/-- **C02 (hex escapes).** Whatever the text, after `useHexEscapes` every byte is printable ASCII: control
+    characters, DEL, non-ASCII runes and invalid bytes all appear as `\xH…` / `\x{H…}`. -/
+theorem C02_useHexEscapes_printable (s : Bytes) : AllPrintable (useHexEscapes s) := by
+  unfold useHexEscapes
+  generalize s.length = f
+  induction f generalizing s with
+  | zero => simp [useHexEscapesAux, AllPrintable]
+  | succ f ih =>
+    cases s with
+    | nil => simp [useHexEscapesAux, AllPrintable]
+    | cons c cs =>
+      simp only [useHexEscapesAux]
+      intro x hx
+      simp only [List.mem_append] at hx
+      rcases hx with hx | hx
+      · split at hx
+        · simp only [List.mem_append, List.mem_cons, List.not_mem_nil, or_false] at hx
+          rcases hx with (rfl | rfl) | hx
+          · decide
+          · decide
+          · exact hexDigits_printable _ _ x hx
+        · split at hx
+          · simp only [List.mem_append, List.mem_cons, List.not_mem_nil, or_false] at hx
+            rcases hx with ((rfl | rfl | rfl) | hx) | rfl
+            · decide
+            · decide
+            · decide
+            · exact hexDigits_printable _ _ x hx
+            · decide
+          · rename_i h1 h2
+            simp only [List.mem_singleton] at hx
+            subst hx
+            have hle : (decodeRune (x :: cs)).1 ≤ 126 := by omega
+            obtain ⟨_, hv⟩ := decodeRune_ascii x cs hle
+            simp only [isPrintable, Bool.and_eq_true, decide_eq_true_eq]
+            omega
+      · exact ih _ x hx
+
+/-! ### the later passes only add printable characters -/
+
+private theorem escapeDQ_mem (prev : Option Char) (s : Bytes) : ∀ c ∈ escapeDoublequotesAux prev s, c ∈ s ∨ c = '\\' := by
+  induction s generalizing prev with
+  | nil => simp [escapeDoublequotesAux]
+  | cons x xs ih =>
+    intro c hc
+    simp only [escapeDoublequotesAux, List.mem_append] at hc
+    rcases hc with hc | hc
+    · split at hc
+      · rename_i hq
+        simp only [List.mem_cons, List.not_mem_nil, or_false] at hc
+        rcases hc with rfl | rfl
+        · exact Or.inr rfl
+        · left
+          have : x = '"' := by simp only [Bool.and_eq_true, beq_iff_eq] at hq; exact hq.1
+          simp [this]
+      · simp only [List.mem_singleton] at hc; subst hc; left; simp
+    · rcases ih _ c hc with h | h
+      · left; simp [h]
+      · right; exact h
+
+private theorem replaceAllAux_mem (old new : Bytes) (k : Nat) (s : Bytes) : ∀ c ∈ replaceAllAux old new k s, c ∈ s ∨ c ∈ new := by
+  induction s generalizing k with
+  | nil => simp [replaceAllAux]
+  | cons x xs ih =>
+    intro c hc
+    cases k with
+    | succ k =>
+      simp only [replaceAllAux] at hc
+      rcases ih k c hc with h | h
+      · left; simp [h]
+      · right; exact h
+    | zero =>
+      simp only [replaceAllAux] at hc
+      split at hc
+      · simp only [List.mem_append] at hc
+        rcases hc with h | h
+        · right; exact h
+        · rcases ih _ c h with h | h
+          · left; simp [h]
+          · right; exact h
+      · simp only [List.mem_cons] at hc
+        rcases hc with rfl | h
+        · left; simp
+        · rcases ih _ c h with h | h
+          · left; simp [h]
+          · right; exact h
+
+private theorem includeVTAux_mem (f : Nat) (ic : Bool) (s : Bytes) :
+    ∀ c ∈ includeVTAux f ic s, c ∈ s ∨ c ∈ b!"\\s\\x0b " := by
+  induction f generalizing ic s with
+  | zero => simp [includeVTAux]
+  | succ f ih =>
+    cases s with
+    | nil => simp [includeVTAux]
+    | cons x xs =>
+      intro c hc
+      simp only [includeVTAux] at hc
+      split at hc
+      · simp only [List.mem_append] at hc
+        rcases hc with h | h
+        · left; exact List.mem_of_mem_take h
+        · rcases ih _ _ c h with h | h
+          · left; exact List.mem_of_mem_drop h
+          · right; exact h
+      · split at hc
+        · simp only [List.mem_cons] at hc
+          rcases hc with rfl | h
+          · left; simp
+          · rcases ih _ _ c h with h | h
+            · left; simp [h]
+            · right; exact h
+        · split at hc
+          · simp only [List.mem_cons] at hc
+            rcases hc with rfl | h
+            · left; simp
+            · rcases ih _ _ c h with h | h
+              · left; simp [h]
+              · right; exact h
+          · split at hc
+            · simp only [List.mem_append] at hc
+              rcases hc with (h | h) | h
+              · right; simp only [List.mem_cons, List.not_mem_nil, or_false] at h ⊢; rcases h with rfl | rfl | rfl | rfl | rfl | rfl <;> simp
+              · right; split at h <;> simp_all
+              · rcases ih _ _ c h with h | h
+                · left; exact List.mem_of_mem_drop h
+                · right; exact h
+            · simp only [List.mem_cons] at hc
+              rcases hc with rfl | h
+              · left; simp
+              · rcases ih _ _ c h with h | h
+                · left; simp [h]
+                · right; exact h
+
+private theorem dropFlagsAux_mem (f off : Nat) (r : Bytes) : ∀ c ∈ dropFlagsAux f off r, c ∈ r := by
+  induction f generalizing off r with
+  | zero => simp [dropFlagsAux]
+  | succ f ih =>
+    intro c hc
+    simp only [dropFlagsAux] at hc
+    split at hc
+    · exact hc
+    · split at hc
+      · exact hc
+      · split at hc
+        · exact ih _ _ c hc
+        · have := ih _ _ c hc
+          simp only [List.mem_append] at this
+          rcases this with h | h
+          · exact List.mem_of_mem_take h
+          · exact List.mem_of_mem_drop h
+
+private theorem slice?_mem (s : Bytes) (a b : Nat) (t : Bytes) (h : slice? s a b = some t) : ∀ c ∈ t, c ∈ s := by
+  unfold slice? at h
+  split at h
+  · simp only [Option.some.injEq] at h
+    subst h
+    intro c hc
+    exact List.mem_of_mem_take (List.mem_of_mem_drop hc)
+  · simp at h
+
+private theorem removeGroup_mem (s : Bytes) (a b : Nat) (ign : Bool) (out : Bytes) (h : removeGroup s a b ign = .ok out) :
+    ∀ c ∈ out, c ∈ s ∨ c ∈ b!"(?:)" := by
+  unfold removeGroup at h
+  split at h
+  · simp at h
+  · simp only at h
+    split at h
+    · rename_i x body rest h1 h2 h3
+      simp only [Except.ok.injEq] at h
+      subst h
+      intro c hc
+      simp only [List.mem_append] at hc
+      rcases hc with (((hc | hc) | hc) | hc) | hc
+      · left; exact slice?_mem _ _ _ _ h1 c hc
+      · right
+        split at hc
+        · simp only [List.mem_cons, List.not_mem_nil, or_false] at hc ⊢
+          rcases hc with rfl | rfl | rfl <;> simp
+        · simp at hc
+      · left; exact slice?_mem _ _ _ _ h2 c hc
+      · right
+        split at hc
+        · simp only [List.mem_cons, List.not_mem_nil, or_false] at hc ⊢
+          subst hc; simp
+        · simp at hc
+      · left; exact slice?_mem _ _ _ _ h3 c hc
+    · simp at h
+
+private theorem dropFlagGroupsAux_mem (f off : Nat) (r out : Bytes) (h : dropFlagGroupsAux f off r = .ok out) :
+    ∀ c ∈ out, c ∈ r ∨ c ∈ b!"(?:)" := by
+  induction f generalizing off r with
+  | zero => simp only [dropFlagGroupsAux, Except.ok.injEq] at h; subst h; intro c hc; exact Or.inl hc
+  | succ f ih =>
+    simp only [dropFlagGroupsAux] at h
+    split at h
+    · simp only [Except.ok.injEq] at h; subst h; intro c hc; exact Or.inl hc
+    · split at h
+      · simp only [Except.ok.injEq] at h; subst h; intro c hc; exact Or.inl hc
+      · split at h
+        · exact ih _ _ h
+        · split at h
+          · simp at h
+          · rename_i r' hrem
+            intro c hc
+            rcases ih _ _ h c hc with h1 | h1
+            · exact removeGroup_mem _ _ _ _ _ hrem c h1
+            · exact Or.inr h1
+
+/-- **C02 (printable, single line).** Whatever text the engine returns, the cleaned-up expression consists of
+    printable ASCII only — no control character, no non-ASCII byte, no line break. -/
+theorem C02_cleanUp_printable (s out : Bytes) (h : cleanUp s = .ok out) : AllPrintable out := by
+  unfold cleanUp at h
+  simp only at h
+  have p1 := C02_useHexEscapes_printable s
+  have p2 : AllPrintable (escapeDoublequotes (useHexEscapes s)) := by
+    intro c hc
+    rcases escapeDQ_mem none _ c hc with h | rfl
+    · exact p1 c h
+    · decide
+  have p3 : AllPrintable (useHexBackslashes (escapeDoublequotes (useHexEscapes s))) := by
+    intro c hc
+    rcases replaceAllAux_mem _ _ 0 _ c hc with h | h
+    · exact p2 c h
+    · simp only [List.mem_cons, List.not_mem_nil, or_false] at h
+      rcases h with rfl | rfl | rfl | rfl <;> decide
+  have p4 : AllPrintable (includeVerticalTabInSpaceClass (useHexBackslashes (escapeDoublequotes (useHexEscapes s)))) := by
+    intro c hc
+    rcases includeVTAux_mem _ _ _ c hc with h | h
+    · exact p3 c h
+    · simp only [List.mem_cons, List.not_mem_nil, or_false] at h
+      rcases h with rfl | rfl | rfl | rfl | rfl | rfl | rfl <;> decide
+  split at h
+  · simp at h
+  · rename_i s5 h5
+    unfold dontUseFlagsForMetaCharacters at h5
+    have p5 : AllPrintable s5 := by
+      intro c hc
+      rcases dropFlagGroupsAux_mem _ _ _ _ h5 c hc with h | h
+      · exact p4 c (dropFlagsAux_mem _ _ _ c h)
+      · simp only [List.mem_cons, List.not_mem_nil, or_false] at h
+        rcases h with rfl | rfl | rfl | rfl <;> decide
+    unfold removeOutermostNonCapturingGroup at h
+    split at h
+    · simp only [Except.ok.injEq] at h; subst h; exact p5
+    · split at h
+      · simp at h
+      · split at h
+        · simp only [Except.ok.injEq] at h; subst h; exact p5
+        · intro c hc
+          rcases removeGroup_mem _ _ _ _ _ h c hc with h | h
+          · exact p5 c h
+          · simp only [List.mem_cons, List.not_mem_nil, or_false] at h
+            rcases h with rfl | rfl | rfl | rfl <;> decide
+
+/-! ### quotes and backslashes -/
+
+/-- every `"` is directly preceded by a backslash -/
+def QuotesEscaped : (prev : Option Char) → Bytes → Prop
+  | _, [] => True
+  | prev, c :: cs => (c = '"' → prev = some '\\') ∧ QuotesEscaped (some c) cs
+
+/-- **C02 (quote escaping pass).** After `escapeDoublequotes` every double quote has a backslash in front. -/
+theorem C02_escapeDoublequotes (s : Bytes) : QuotesEscaped none (escapeDoublequotes s) := by
+  unfold escapeDoublequotes
+  have : ∀ (prev : Option Char) (s : Bytes) (p' : Option Char), (prev = some '\\' → p' = some '\\') →
+      QuotesEscaped p' (escapeDoublequotesAux prev s) := by
+    intro prev s
+    induction s generalizing prev with
+    | nil => intro p' _; simp [escapeDoublequotesAux, QuotesEscaped]
+    | cons c cs ih =>
+      intro p' hp
+      simp only [escapeDoublequotesAux]
+      split
+      · rename_i hq
+        have hc : c = '"' := by simp only [Bool.and_eq_true, beq_iff_eq] at hq; exact hq.1
+        subst hc
+        have h3 := ih (some '"') (some '"') (by intro h; exact h)
+        simp [QuotesEscaped, h3]
+      · rename_i hq
+        simp only [List.singleton_append, QuotesEscaped]
+        refine ⟨?_, ih (some c) (some c) (by intro h; exact h)⟩
+        intro hc
+        subst hc
+        simp only [beq_self_eq_true, Bool.true_and, bne_iff_ne, ne_eq, Decidable.not_not] at hq
+        exact hp hq
+  exact this none s none (by intro h; exact h)
+
+/-- no two adjacent backslashes -/
+def NoBsPair : Bytes → Prop
+  | [] => True
+  | [_] => True
+  | a :: b :: t => ¬ (a = '\\' ∧ b = '\\') ∧ NoBsPair (b :: t)
+
+private theorem noBsPair_cons (c : Char) (t : Bytes) (h : NoBsPair t) (hc : ¬ (c = '\\' ∧ t.head? = some '\\')) : NoBsPair (c :: t) := by
+  cases t with
+  | nil => simp [NoBsPair]
+  | cons b t' => exact ⟨by simpa using hc, h⟩
+
+private theorem replaceBs_head (n : Nat) (s : Bytes) (hn : s.length ≤ n) :
+    NoBsPair (replaceAllAux bsPair bsHex 0 s) ∧
+    ((replaceAllAux bsPair bsHex 0 s).head? = some '\\' → s.head? = some '\\') := by
+  induction n generalizing s with
+  | zero =>
+    have : s = [] := List.length_eq_zero_iff.mp (by omega)
+    subst this; simp [replaceAllAux, NoBsPair]
+  | succ n ih =>
+    match s, hn with
+    | [], _ => simp [replaceAllAux, NoBsPair]
+    | [c], _ =>
+      rw [replaceBs_other c [] (by simp)]
+      simp [replaceAllAux, NoBsPair]
+    | c :: c2 :: t, hn =>
+      by_cases hp : c = '\\' ∧ c2 = '\\'
+      · obtain ⟨rfl, rfl⟩ := hp
+        rw [replaceBs_pair]
+        obtain ⟨h1, _⟩ := ih t (by simp at hn; omega)
+        refine ⟨?_, by simp⟩
+        -- \x5c followed by a text without pairs
+        simp only [bsHex, List.cons_append, List.nil_append]
+        refine ⟨by simp, ?_⟩
+        refine ⟨by simp, ?_⟩
+        refine ⟨by simp, ?_⟩
+        exact noBsPair_cons 'c' _ h1 (by simp)
+      · rw [replaceBs_other c (c2 :: t) (by simpa using hp)]
+        obtain ⟨h1, h2⟩ := ih (c2 :: t) (by simp at hn ⊢; omega)
+        refine ⟨noBsPair_cons c _ h1 ?_, by simp⟩
+        rintro ⟨hc, hh⟩
+        have := h2 hh
+        simp only [List.head?_cons, Option.some.injEq] at this
+        exact hp ⟨hc, this⟩
+
+/-- **C02 (literal backslash only as `\x5c`).** After `useHexBackslashes` no escaped backslash `\\` is left. -/
+theorem C02_useHexBackslashes (s : Bytes) : NoBsPair (useHexBackslashes s) :=
+  (replaceBs_head _ s (Nat.le_refl _)).1
+
+/-- the known finding D09, as a fact about the model: an escaped backslash followed by a quote ends up as a
+    bare quote (the quote pass looks one byte back, the backslash pass then rewrites that byte) -/
+theorem C02_bare_quote_after_escaped_backslash_D09 :
+    cleanUp "a\\\\\"b".toList = .ok "a\\x5c\"b".toList := by
+  decide +kernel
+
+/-! ### flags -/
+
+/-- **C02/C03 (flag prefix).** The prefix is `(?` + the sorted sub-list of `[i, s]` + `)`, whatever the order and
+    multiplicity in which the flags were collected (map iteration order). -/
+theorem C02_flags_sorted (fl : List Char) :
+    sortFlags fl = [] ∨ sortFlags fl = ['i'] ∨ sortFlags fl = ['s'] ∨ sortFlags fl = ['i', 's'] := by
+  by_cases hi : 'i' ∈ fl <;> by_cases hs : 's' ∈ fl <;> simp [sortFlags, hi, hs]
+
+theorem C02_flags_order_free (fl fl' : List Char) (h : ∀ c, c ∈ fl ↔ c ∈ fl') : sortFlags fl = sortFlags fl' := by
+  unfold sortFlags
+  have hi : fl.contains 'i' = fl'.contains 'i' := by
+    rw [Bool.eq_iff_iff]; simp [h 'i']
+  have hs : fl.contains 's' = fl'.contains 's' := by
+    rw [Bool.eq_iff_iff]; simp [h 's']
+  rw [hi, hs]
+
+private theorem allPrintable_append (a b : Bytes) (ha : AllPrintable a) (hb : AllPrintable b) : AllPrintable (a ++ b) := by
+  intro c hc
+  simp only [List.mem_append] at hc
+  rcases hc with h | h
+  · exact ha c h
+  · exact hb c h
+
+private theorem sortFlags_printable (fl : List Char) : AllPrintable (sortFlags fl) := by
+  rcases C02_flags_sorted fl with h | h | h | h <;> rw [h] <;> intro c hc <;> simp at hc
+  · subst hc; decide
+  · subst hc; decide
+  · rcases hc with rfl | rfl <;> decide
+
+/-- what `finish` prints: printable ASCII on one line, and — when the program sets flags and the expression is
+    not empty — the flag group `(?` + sorted flags + `)` in front -/
+theorem C02_finish (E : Engine) (fl : List Char) (text out : Bytes) (h : finish E fl text = .ok out) :
+    AllPrintable out ∧
+    (out = [] ∨ ∃ body, out = (if sortFlags fl = [] then [] else b!"(?" ++ sortFlags fl ++ b!")") ++ body) := by
+  unfold finish at h
+  split at h
+  · simp only [Except.ok.injEq] at h; subst h; exact ⟨by intro c hc; simp at hc, Or.inl rfl⟩
+  · split at h
+    · simp at h
+    · split at h
+      · simp at h
+      · rename_i r hr
+        simp only [Except.ok.injEq] at h
+        have pr := C02_cleanUp_printable _ _ hr
+        subst h
+        by_cases hcond : (!(sortFlags fl).isEmpty && !r.isEmpty) = true
+        · rw [if_pos hcond]
+          have hne : ¬ sortFlags fl = [] := by
+            simp only [Bool.and_eq_true, Bool.not_eq_true', List.isEmpty_eq_false_iff] at hcond
+            exact hcond.1
+          refine ⟨?_, Or.inr ⟨r, by rw [if_neg hne]⟩⟩
+          apply allPrintable_append _ _ _ pr
+          apply allPrintable_append
+          · apply allPrintable_append _ _ _ (sortFlags_printable fl)
+            intro c hc; simp only [List.mem_cons, List.not_mem_nil, or_false] at hc
+            rcases hc with rfl | rfl <;> decide
+          · intro c hc; simp only [List.mem_cons, List.not_mem_nil, or_false] at hc
+            subst hc; decide
+        · rw [if_neg hcond]
+          refine ⟨pr, ?_⟩
+          by_cases hre : r = []
+          · exact Or.inl hre
+          · right
+            refine ⟨r, ?_⟩
+            have : sortFlags fl = [] := by
+              cases hsf : sortFlags fl with
+              | nil => rfl
+              | cons x xs =>
+                exfalso
+                apply hcond
+                cases r with
+                | nil => exact absurd rfl hre
+                | cons y ys => simp [hsf]
+            simp [this]
+
 end Crs.Props
